@@ -50,7 +50,7 @@ fn generate(rng: &mut Rng) -> ConnScenario {
     // optionally a valid (or subtly invalid) cookie carrying another identity
     if intent == 3 && rng.chance(1, 2) {
         let id = Identity {
-            name: format!("Cookie{}", rng.below(100)),
+            name: if rng.chance(1, 4) { gen_name(rng) } else { format!("Cookie{}", rng.below(100)) },
             uuid: gen_uuid(rng),
             props: gen_props(rng),
         };
@@ -68,12 +68,16 @@ fn generate(rng: &mut Rng) -> ConnScenario {
         let body = cookie_json(ts, &addr, &id, Some("old-target"));
         client.auth_cookie = Some(signed_cookie(&sec, &body));
     }
-    let verdict = match rng.below(8) {
+    let verdict = match rng.below(10) {
         0 => AuthRes::Error,
+        // degenerate but successful verdicts: an empty name, the nil UUID
+        8 => AuthRes::Profile { name: if rng.chance(1, 2) { String::new() } else { client.name.clone() }, uuid: format!("{:032x}", 0u128), props: gen_props(rng) },
+        9 => AuthRes::Profile { name: String::new(), uuid: format!("{:032x}", gen_uuid(rng)), props: vec![] },
         1 => AuthRes::Claim,
         2 => AuthRes::Profile { name: format!("Real{}", rng.below(100)), uuid: client.uuid.clone(), props: vec![] },
         3 => AuthRes::Profile { name: client.name.clone(), uuid: format!("{:032x}", gen_uuid(rng)), props: vec![] },
         4 => AuthRes::Profile { name: client.name.clone(), uuid: client.uuid.clone(), props: gen_props(rng) },
+        7 => AuthRes::Profile { name: gen_name(rng), uuid: format!("{:032x}", gen_uuid(rng)), props: gen_props(rng) },
         _ => AuthRes::Profile { name: format!("Real{}", rng.below(100)), uuid: format!("{:032x}", gen_uuid(rng)), props: gen_props(rng) },
     };
     let auth_lat = *rng.pick(&[0u64, 0, ms(3), secs(2), secs(20)]);
